@@ -186,4 +186,49 @@ theorem ok_content : (obs okRun okLab 0).next = 1 ∧ (obs okRun okLab 0).annB =
   refine ⟨rfl, rfl, ?_, rfl⟩
   simp [obs, okLab, okLabs, okRun, okStates, gstep, ginit, resNext, List.range, List.range.loop]
 
+-- ------------------------------------------------------------------ a run with a stop request (non-vacuity of `stop_live`)
+
+def finalSt : St := { quit := true, dbOpen := false, hp := .done, wp := .done, sp := .done }
+def stopStates : List St :=
+  [{ nt := 1 }, { nt := 1, quit := true, sp := .waiting }, { nt := 1, quit := true, sp := .waiting, hp := .done },
+   { nt := 1, quit := true, sp := .waiting, hp := .done, wp := .done },
+   { nt := 1, quit := true, sp := .closing, hp := .done, wp := .done }]
+def stopLabs : List (Option Label) := [some .eStop, some .hQuit, some .wQuit, some .sWait, some .sClose]
+def stopRun (i : Nat) : St := stopStates.getD i { finalSt with nt := 1 }
+def stopLab (i : Nat) : Option Label := stopLabs.getD i none
+
+theorem stop_isRun : IsRun cfg4 stopRun stopLab := by
+  refine ⟨by simp [Init, stopRun, stopStates, cfg4], ?_⟩
+  intro i
+  match i with
+  | 0 => rfl
+  | 1 => rfl
+  | 2 => rfl
+  | 3 => rfl
+  | 4 => rfl
+  | i + 5 => simp [stopLab, stopLabs, stopRun, stopStates]
+
+theorem stop_late (k : Nat) (hk : 5 ≤ k) : stopRun k = { finalSt with nt := 1 } := by
+  obtain ⟨d, rfl⟩ := Nat.exists_eq_add_of_le hk
+  rw [Nat.add_comm]
+  simp [stopRun, stopStates]
+
+theorem final_disabled (l : Label) (hl : l.core = true) : fire .fixed cfg4 l { finalSt with nt := 1 } = none := by
+  cases l <;> simp [Label.core] at hl <;> rfl
+
+theorem stop_wf (l : Label) (hl : l.core = true) : WF (fire .fixed cfg4) stopRun stopLab l := by
+  intro i hen
+  have h := hen (i + 5) (by omega)
+  rw [En, stop_late _ (by omega), final_disabled l hl] at h
+  cases h
+
+theorem stop_noPush (j : Nat) : stopLab j ≠ some .aPush := by
+  match j with
+  | 0 => decide
+  | 1 => decide
+  | 2 => decide
+  | 3 => decide
+  | 4 => decide
+  | j + 5 => simp [stopLab, stopLabs]
+
 end MW.Lemmas.ProtoLiveEx
